@@ -2,6 +2,7 @@ package props
 
 import (
 	"fmt"
+	"regexp"
 	"strings"
 
 	"github.com/paulsonkoly/calc/parser"
@@ -184,6 +185,8 @@ func suffixProbes(r *core.Rng) []ast.Node {
 		ast.ArrayLit{Elems: []ast.Node{toa(nm("ga")), toa(nm("gb")), toa(nm("gc")), toa(nm("gw")), toa(nm("gz")), toa(nm("gi"))}},
 	}
 }
+
+var ptrRe = regexp.MustCompile(`0x[0-9a-f]+`)
 
 type sufObs struct {
 	V         val.Value
@@ -376,6 +379,95 @@ func c08Case(ctx *core.Ctx, idx int) core.Result {
 		}
 		res.Add("suffix_statements_compared", 1)
 	}
+	if parseErr == "" {
+		// input grouping: the REPL/file loop hands processInput one complete input at a time, and an input may
+		// hold several statements. The failing part and the suffix given as ONE input must print and leave
+		// exactly what the same statements print and leave when given one by one.
+		all := append(append([]ast.Node{}, fstmts...), suffix...)
+		texts := make([]string, len(all))
+		for i, st := range all {
+			texts[i] = ast.Print(st, nil)
+		}
+		feed := func(inputs []string) (out string, globals string, bad string) {
+			calcrun.SetStdin(stdin)
+			ses := calcrun.NewSession()
+			for _, st := range prefix {
+				if o := ses.Exec(ast.Print(st, nil), doOut); len(o) != 1 || o[0].Panic != nil {
+					return "", "", "prefix aborted"
+				}
+			}
+			for _, inp := range inputs {
+				var pan any
+				func() {
+					defer func() { pan = recover() }()
+					out += calcrun.Capture(func() { node.VerifProcessInput(inp, parser.Type{}, ses.VM, doOut) })
+				}()
+				if pan != nil {
+					return out, "", fmt.Sprintf("processInput aborted on %q: %v", trunc(inp, 200), pan)
+				}
+			}
+			return ptrRe.ReplaceAllString(out, "PTR"), fmt.Sprint(ses.Globals()), ""
+		}
+		// statements of one input stand side by side on a line (a line break outside brackets ends the input).
+		// Greedy grouping: a statement joins the current input as long as the joined text still parses into
+		// the very same statements (an array literal after an expression would become an index, etc.).
+		parsesAs := func(text string, parts []string) bool {
+			nodes, perr, pan, hang, _, _ := calcrun.Parse(text)
+			if perr != nil || pan != nil || hang != "" || len(nodes) != len(parts) {
+				return false
+			}
+			for i := range nodes {
+				one, perr1, _, _, _, _ := calcrun.Parse(parts[i])
+				if perr1 != nil || len(one) != 1 || ast.Sexp(calcrun.FromNode(nodes[i])) != ast.Sexp(calcrun.FromNode(one[0])) {
+					return false
+				}
+			}
+			return true
+		}
+		var grouped []string
+		var cur []string
+		maxGroup := 0
+		for _, t := range texts {
+			if len(cur) > 0 && parsesAs(strings.Join(append(append([]string{}, cur...), t), " "), append(append([]string{}, cur...), t)) {
+				cur = append(cur, t)
+			} else {
+				if len(cur) > 0 {
+					grouped = append(grouped, strings.Join(cur, " "))
+				}
+				cur = []string{t}
+			}
+			if len(cur) > maxGroup {
+				maxGroup = len(cur)
+			}
+		}
+		grouped = append(grouped, strings.Join(cur, " "))
+		sameParse := len(grouped) < len(texts)
+		if !sameParse {
+			res.Add("grouped_inputs_not_equivalent", 1)
+		}
+		res.SetMax("max_statements_in_one_input", maxGroup)
+		o1, g1, bad1 := "", "", ""
+		oN, gN, badN := "", "", ""
+		if sameParse {
+			o1, g1, bad1 = feed(texts)
+			oN, gN, badN = feed(grouped)
+		}
+		switch {
+		case !sameParse:
+		case bad1 != "" || badN != "":
+			res.Verdict = core.Violated
+			res.Viol = &core.Violation{Monitor: "session-survives", Detail: "through processInput: " + bad1 + " " + badN, Input: in}
+			return res
+		case o1 != oN || g1 != gN:
+			res.Verdict = core.Violated
+			d := fmt.Sprintf("the failing part and the suffix given as one input print %q and leave globals %s; given statement by statement they print %q and leave %s", trunc(oN, 600), trunc(gN, 300), trunc(o1, 600), trunc(g1, 300))
+			res.Viol = &core.Violation{Monitor: "input-grouping", Detail: d, Input: in}
+			return res
+		}
+		if sameParse {
+			res.Add("grouped_inputs_compared", 1)
+		}
+	}
 	res.Add("failures_injected", failures)
 	if parseErr != "" {
 		res.Add("parse_errors_injected", 1)
@@ -390,11 +482,11 @@ func c08Case(ctx *core.Ctx, idx int) core.Result {
 func init() {
 	register(&core.Property{
 		ID:          "C08",
-		Rule:        "twin sessions: a typed prefix, a failing part F (parse error texts; the seven runtime error classes raised at top level after 0..2 completed global assignments, at call depth 1..200, in while/for bodies at the k-th iteration, inside a generator after its k-th yield, inside a nested generator consumed by a zipped loop, inside a returned closure, inside a loop body of a function calling into depth, several failures in a row) and a suffix that reuses frames (recursion), contexts (zipped loop), closures, a top-level return out of a for loop and a snapshot of all probe globals; the twin replaces F by literal assignments of exactly the globals the reference says F completed. Suffix observations must be equal between the twins and equal to the reference; the machine must be clean right after every failure and untouched by a parse error. REPL and script mode. Every case is non-trivial; distinct by session text and mode.",
+		Rule:        "twin sessions: a typed prefix, a failing part F (parse error texts; the seven runtime error classes raised at top level after 0..2 completed global assignments, at call depth 1..200, in while/for bodies at the k-th iteration, inside a generator after its k-th yield, inside a nested generator consumed by a zipped loop, inside a returned closure, inside a loop body of a function calling into depth, several failures in a row) and a suffix that reuses frames (recursion), contexts (zipped loop), closures, a top-level return out of a for loop and a snapshot of all probe globals; the twin replaces F by literal assignments of exactly the globals the reference says F completed. Suffix observations must be equal between the twins and equal to the reference; the machine must be clean right after every failure and untouched by a parse error; the failing part and the suffix handed to processInput as one multi-statement input must print and leave exactly what they do when handed over one statement at a time. REPL and script mode. Every case is non-trivial; distinct by session text and mode.",
 		Assumptions: []string{"globals completed by F are literal-printable by construction (ints, strings, arrays); helper function definitions of F are replayed verbatim in the twin"},
 		Families: []core.Family{
 			{Name: "twin", Count: countFn(10000, 300000), Run: c08Case},
 		},
-		Floors: []core.Floor{{Key: "suffix_statements_compared", Quick: 20000, Thor: 2000000}, {Key: "failures_injected", Quick: 2500, Thor: 250000}, {Key: "parse_errors_injected", Quick: 150, Thor: 15000}, {Key: "tag:failure-at:", Quick: 11, Thor: 11}, {Key: "tag:err:", Quick: 7, Thor: 7}},
+		Floors: []core.Floor{{Key: "suffix_statements_compared", Quick: 20000, Thor: 2000000}, {Key: "failures_injected", Quick: 2500, Thor: 250000}, {Key: "parse_errors_injected", Quick: 150, Thor: 15000}, {Key: "grouped_inputs_compared", Quick: 2000, Thor: 200000}, {Key: "tag:failure-at:", Quick: 11, Thor: 11}, {Key: "tag:err:", Quick: 7, Thor: 7}},
 	})
 }
